@@ -137,15 +137,14 @@ func init() {
 			{"private/trust", "", "activeTRCs", "activeTRCsCalls", set("SignedTRC", "IsZero", "Contains", "InGracePeriod")},
 			{"private/trust", "SignerGen", "bestForKey", "bestForKeyCalls",
 				set("SubjectKeyID", "SelectSignatureAlgorithm", "Chains", "filterChains", "bestChain", "minTime", "GracePeriodEnd")},
-			{"private/trust", "", "bestChain", "bestChainCalls", set("VerifyChain", "Before", "After")},
-			{"private/trust", "Signer", "validate", "signerValidateCalls", set("Sub")},
+			{"private/trust", "", "bestChain", "bestChainCalls", set("VerifyChain")},
 			{"private/ca/renewal", "RequestVerifier", "VerifyCMSSignedRenewalRequest", "verifyRequestCalls",
 				set("ParseContentInfo", "SignedDataContent", "ExtractChain", "VerifySignature", "EContentValue",
 					"ParseCertificateRequest", "processCSR")},
 			{"private/ca/renewal", "RequestVerifier", "VerifySignature", "verifySignatureCalls",
 				set("FindCertificate", "verifyClientChain", "IsTypeData", "EContentValue", "verifySignerInfo")},
 			{"private/ca/renewal", "RequestVerifier", "verifyClientChain", "verifyClientChainCalls",
-				set("ExtractIA", "SignedTRC", "IsZero", "Contains", "VerifyChain", "After", "GracePeriodEnd", "verifyWithGraceTRC")},
+				set("ExtractIA", "SignedTRC", "IsZero", "Contains", "VerifyChain", "GracePeriodEnd", "verifyWithGraceTRC")},
 			{"private/ca/renewal", "RequestVerifier", "verifyWithGraceTRC", "verifyWithGraceCalls",
 				set("SignedTRC", "IsZero", "Contains", "VerifyChain")},
 			{"private/ca/renewal", "RequestVerifier", "processCSR", "processCSRCalls", set("ExtractIA", "Equal", "CheckSignature")},
